@@ -95,6 +95,13 @@ thread_local! {
     static QUIET: Cell<bool> = const { Cell::new(false) };
     static SUSPENDED: Cell<bool> = const { Cell::new(false) };
     static CB_PANIC_IN: Cell<u64> = const { Cell::new(0) };
+    /// the injection point of this execution lies inside an index rehash: after the fault, probe the
+    /// index through lookups before anything traverses it (known finding F1)
+    static INDEX_PROBE: Cell<bool> = const { Cell::new(false) };
+    /// kind of every user-code call of the run, in order (only when asked for: long C18 histories)
+    static KIND_LOG: RefCell<Option<Vec<(u8, u32)>>> = const { RefCell::new(None) };
+    /// index of the event being executed (u32::MAX outside events)
+    static EVENT_IDX: Cell<u32> = const { Cell::new(u32::MAX) };
 }
 
 /// the n-th callback invocation from now on panics after it has been recorded (0 = never)
@@ -148,6 +155,28 @@ pub fn reset() {
     KIND_COUNTS.with(|k| *k.borrow_mut() = [0; N_CALL_KINDS]);
     WATCHDOG_FIRED.with(|c| c.set(false));
     CB_PANIC_IN.with(|c| c.set(0));
+    KIND_LOG.with(|k| *k.borrow_mut() = None);
+}
+
+pub fn set_index_probe(on: bool) {
+    INDEX_PROBE.with(|c| c.set(on));
+}
+pub fn index_probe() -> bool {
+    // CACHESIM_NO_CONTAIN=1 switches the containment off: the replay of known/C18-F1-*.json then
+    // runs into the undefined behaviour itself (typically a crash inside the audit or in Drop)
+    static OFF: std::sync::OnceLock<bool> = std::sync::OnceLock::new();
+    INDEX_PROBE.with(|c| c.get()) && !*OFF.get_or_init(|| std::env::var_os("CACHESIM_NO_CONTAIN").is_some())
+}
+
+/// start recording the kind of every user-code call (index i-1 = call number i)
+pub fn record_kinds() {
+    KIND_LOG.with(|k| *k.borrow_mut() = Some(Vec::with_capacity(1 << 16)));
+}
+pub fn set_event_idx(i: u32) {
+    EVENT_IDX.with(|c| c.set(i));
+}
+pub fn take_kinds() -> Vec<(u8, u32)> {
+    KIND_LOG.with(|k| k.borrow_mut().take()).unwrap_or_default()
 }
 
 pub fn set_fault(at: u64, at2: u64) {
@@ -200,6 +229,12 @@ pub fn user_call(kind: CallKind) {
         n
     });
     KIND_COUNTS.with(|k| k.borrow_mut()[kind as usize] += 1);
+    KIND_LOG.with(|k| {
+        if let Some(v) = k.borrow_mut().as_mut() {
+            let e = EVENT_IDX.with(|c| c.get());
+            crate::alloc::harness_scope(|| v.push((kind as u8, e)));
+        }
+    });
     let panicking = std::thread::panicking();
     let ec = EVENT_CALLS.with(|c| {
         let n = c.get() + 1;
